@@ -42,6 +42,12 @@ def models(tier):
                                       [("m", c, n) for c in (0, 1) for n in ("rq:3:own", "rq:3:r2", "rq:4:own", "rq:4:r2", "rq:3:foreign", "dpr")] +
                                       [("ans", 0), ("tick", 2)],
                                       MONS, max_socks=2, prelude=[("accept",), ("m", 0, "cer_p0"), ("accept",), ("m", 1, "cer_p1")]))
+    # one application, two peers, an additional realm: every (peer, realm) pair of the configuration is served
+    xr = copy.deepcopy(CFG3)
+    xr["apps"] = [{"id": 4, "auth": True, "peers": [0, 1], "realms": ["realm2.example"]}, {"id": 3, "acct": True, "peers": [1, 0], "realms": ["realm2.example"]}]
+    out.append(monitors.ScenarioModel("two-peers-additional-realm", xr,
+                                      [("m", c, n) for c in (0, 1) for n in ("rq:4:own", "rq:4:r2", "rq:3:r2", "rq:3:own", "rq:4:foreign")] + [("ans", 0), ("send", 0, "r2")],
+                                      MONS, max_socks=2, prelude=[("accept",), ("m", 0, "cer_p0"), ("accept",), ("m", 1, "cer_p1")]))
     # requests arriving while the connection is in the second ready sub-state (DWR sent, DWA outstanding)
     wd = copy.deepcopy(CFG3)
     wd["node"].update({"idle_timeout": 2, "dwa_timeout": 30, "wakeup": 1})
